@@ -18,6 +18,7 @@ import (
 type Finding struct {
 	Rule string `json:"rule"`
 	Key  string `json:"key"`
+	NKey string `json:"nkey,omitempty"` // name-free form of the key (see Ctx.normPath)
 	Pos  string `json:"pos"`
 	Msg  string `json:"msg"`
 }
@@ -60,6 +61,15 @@ func (r *Rule) Ob(ok bool, construct string, pos token.Pos, msg string) {
 	r.Violations = append(r.Violations, Finding{Rule: r.ID, Key: key, Pos: p, Msg: msg})
 }
 
+// ObN: an obligation that also has a name-free key; the reviewed table and the known findings match
+// either form, so a renamed local or a rewritten loop does not turn a reviewed obligation into an alarm.
+func (r *Rule) ObN(ok bool, construct, nconstruct string, pos token.Pos, msg string) {
+	r.Ob(ok, construct, pos, msg)
+	if !ok && len(r.Violations) > 0 {
+		r.Violations[len(r.Violations)-1].NKey = r.ID + "|" + nconstruct
+	}
+}
+
 // Inst counts one matched instance of the rule's template (for the floor).
 func (r *Rule) Inst(n int) { r.Instances += n }
 
@@ -93,6 +103,7 @@ func reg(prop, id, engine, desc string, floor int, fn ruleFn) {
 type knownFinding struct {
 	Property string `json:"property"`
 	Key      string `json:"key"`
+	NKey     string `json:"nkey,omitempty"`
 	Status   string `json:"status"` // "known" | "fixed"
 	Commit   string `json:"commit,omitempty"`
 	What     string `json:"what"`
@@ -101,6 +112,7 @@ type knownFinding struct {
 type reviewedEntry struct {
 	Property string `json:"property"`
 	Key      string `json:"key"` // "<rule>|<construct>"
+	NKey     string `json:"nkey,omitempty"`
 	Reason   string `json:"reason"`
 }
 
@@ -148,6 +160,11 @@ func loadReviewed() (map[string]string, error) {
 	}
 	for _, e := range l {
 		out[e.Key] = e.Reason
+		if e.NKey != "" {
+			if _, dup := out["~"+e.NKey]; !dup {
+				out["~"+e.NKey] = e.Reason
+			}
+		}
 	}
 	return out, nil
 }
@@ -220,7 +237,11 @@ func finish(c *Ctx, prop, tier string, seed int, rules []*Rule, selftest map[str
 	for _, r := range rules {
 		var keep []Finding
 		for _, f := range r.Violations {
-			if reason, ok := reviewed[f.Key]; ok {
+			reason, ok := reviewed[f.Key]
+			if !ok && f.NKey != "" {
+				reason, ok = reviewed["~"+f.NKey]
+			}
+			if ok {
 				r.Reviewed++
 				if len(r.Samples) < 8 {
 					r.Samples = append(r.Samples, fmt.Sprintf("%s: reviewed %s: %s [%s]", f.Pos, f.Key, f.Msg, reason))
@@ -229,7 +250,7 @@ func finish(c *Ctx, prop, tier string, seed int, rules []*Rule, selftest map[str
 			}
 			isKnown := false
 			for _, k := range known {
-				if k.Status == "known" && k.Property == prop && k.Key == f.Key {
+				if k.Status == "known" && k.Property == prop && (k.Key == f.Key || (k.NKey != "" && k.NKey == f.NKey)) {
 					isKnown = true
 					knownLines = append(knownLines, fmt.Sprintf("KNOWN-FINDING: property=%s %s [%s at %s]", prop, k.What, f.Key, f.Pos))
 				}
